@@ -408,7 +408,19 @@ func zzH_C11_sgr() {
 	}
 	items := zzv.Choose(0, zzv.CfgInt("items"))
 	for k := 0; k < items; k++ {
-		switch zzv.Choose(0, 2) {
+		kinds := 2
+		if sep == ':' && len(params) == 0 {
+			kinds = 3 // the ITU T.416 form with an (empty) colour-space id needs a colon list
+		}
+		switch zzv.Choose(0, kinds) {
+		case 3:
+			// 38:2::r:g:b - the empty colour-space identifier is part of the well-formed colon form
+			which := 38 + 10*zzv.Choose(0, 1)
+			code = append(code, byte('0'+which/10), byte('0'+which%10), ':', '2', ':')
+			params = append(params, which, 2)
+			symNum()
+			symNum()
+			symNum()
 		case 0:
 			emit(zzSimpleCodes[zzv.Choose(0, len(zzSimpleCodes)-1)], false)
 		case 1:
